@@ -5,7 +5,7 @@ from core import term as T
 from props.c11 import FakeServer, coq_map, coq_version, gen_map, share_version
 
 ID = "C14"
-GEN = []
+GEN = ["mutpins"]
 RULE = ("servermap cases as for C11 (1-5 versions, ties, k 1..4, expected share count N 3..6); non-trivial = a recoverable version present; "
         "grid cases: files with shares deleted, replaced by older versions, or corrupted (verify), checked with/without verify and "
         "repaired with/without force")
